@@ -103,9 +103,19 @@ def run(ctx):
     ctx.rule("M1", "who-may-call recv = the two readers")
     ctx.rule("M2", "who-may-touch the read buffer = the two readers (+ resets where the socket is replaced)")
     ctx.rule("W1", "who-may-call sendall = the sender")
-    m1(ctx, R)
-    m2(ctx, R)
     w1(ctx, R)
+
+    # the reply readers, the reply decoders and the status/error parser are this property's mechanism too ("reply reader and buffer",
+    # "listing / script / capability decoding"): a desynchronisation introduced there shows up only later in a session
+    from .c05 import reader_rules
+    from .c17 import decoder_rules
+    from .c09 import q34
+    for rid, txt in (("M3", "block reader reads exactly the announced size"), ("M4", "line reader: delimiter discipline"),
+                     ("M5", "literal sizes unchanged"), ("M6", "recv chunks used only segmentation-independently")):
+        ctx.rule(rid, txt)
+    reader_rules(ctx, R)
+    decoder_rules(ctx, R)
+    q34(ctx, R)
 
     # ---- K4 ---------------------------------------------------------------------
     ctx.rule("K4", "line reader: every raise that interprets a line is dominated by the removal of that line from the buffer")
